@@ -181,7 +181,9 @@ func c07Probes() []probe {
 			}
 			return fix.IBTPTx(fix.KPauper, pw.w.N.Next(fix.KPauper), ib, fix.GoodProof)
 		}},
-		{"transfer-insufficient", func(pw *preWorld) pb.Transaction { return pw.w.TransferTx(fix.KOut, fix.KUser, "99999999999999999999999") }},
+		{"transfer-insufficient", func(pw *preWorld) pb.Transaction {
+			return pw.w.TransferTx(fix.KOut, fix.KUser, "99999999999999999999999")
+		}},
 		{"xvm-invoke-unknown-contract", func(pw *preWorld) pb.Transaction {
 			return fix.InvokeAddr(fix.KA, pw.w.N.Next(fix.KA), types.NewAddressByStr("0x00000000000000000000000000000000000000ef"), pb.TransactionData_XVM, "foo", pb.String("a"))
 		}},
